@@ -174,6 +174,17 @@ def ungrouped (m : SModel) (q : Query) (rows : List Row) : List Row :=
              else (measureExpr m ms).eval r)
           else .null)
 
+/-- the ungrouped query in flat form: a filtered measure is `CASE WHEN <filters> THEN <value> END` -/
+def rawItem (m : SModel) (ms : Measure) (n : String) : Item :=
+  ⟨(match (flatAgg m ms n).cond with
+    | none => (flatAgg m ms n).e
+    | some c => .case c (flatAgg m ms n).e (.lit .null)), n⟩
+
+def flatRaw (m : SModel) (q : Query) : FlatRaw :=
+  { filt := rowFilters m q,
+    items := ((effectiveDims m q).map fun ref => ⟨dimRefExpr m ref, outName q ref⟩) ++
+             (measuresOf m q).map fun (ms, n) => rawItem m ms n }
+
 def body (m : SModel) (q : Query) (rows : List Row) : List Row :=
   if q.ungrouped then ungrouped m q rows else finish m { q with orderBy := [], limit := none, offset := none } (grouped m q rows)
 
